@@ -41,6 +41,41 @@ Theorem C07_single_grid_is_identity : forall (logm : bool) fm x y, (logm = true 
 Proof. exact k1_is_identity. Qed.
 Print Assumptions C07_single_grid_is_identity.
 
+(** One wrap, many calls.  [run_calls step store calls]: the wrapped function as an object holding the list captured by
+    make_extrap_func ([Some xs]: explicit extrap_x_l; [None]: x read off each call's results), called on a sequence of
+    (extrap_x carried by the results, results) pairs.  Every call returns what the pure function returns and the captured
+    list is left as it was (the source obligation "no in-place operation on extrap_x_l / x_l / pts_l / result_l" is the
+    tie of this frame condition to Numerics.py). *)
+Theorem C07_calls_are_independent : forall (step : list R -> list R -> option R) store calls,
+  run_calls step store calls = (map (fun c => step (call_xs store (fst c)) (snd c)) calls, store).
+Proof. exact run_calls_pure. Qed.
+Print Assumptions C07_calls_are_independent.
+
+Theorem C07_repeated_calls_exact : forall (store : option (list R)) (calls : list (list R * list R)),
+  Forall (fun c => let xs := call_xs store (fst c) in
+                   length (snd c) = length xs /\ (1 <= length xs <= 6)%nat /\ NoDup xs) calls ->
+  run_calls extrap_entry store (map (fun c => (fst c, map (peval (snd c)) (call_xs store (fst c)))) calls)
+  = (map (fun c => Some (hd 0 (snd c))) calls, store).
+Proof. exact repeated_calls_exact. Qed.
+Print Assumptions C07_repeated_calls_exact.
+
+(** the frame condition is needed: a wrapper that reverses/sorts the captured list in place after using it is exact on
+    the first call and wrong on the second (witness: f(x) = x on the spacings [2; 1]). *)
+Theorem C07_rewriting_the_captured_list_refuted :
+  exists (g : list R -> list R) (xs cs : list R),
+    length cs = length xs /\ NoDup xs /\
+    let c := (@nil R, map (peval cs) xs) in
+    nth 0 (fst (run_calls_rewriting g extrap_entry (Some xs) [c; c])) None = Some (hd 0 cs) /\
+    nth 1 (fst (run_calls_rewriting g extrap_entry (Some xs) [c; c])) None <> Some (hd 0 cs).
+Proof. exact rewriting_store_refuted. Qed.
+
+(** the batched correspondence check (weights of the node list computed once, logarithms handed in) evaluates the model
+    itself - for every number type, so in particular for the rationals it runs on. *)
+Theorem C07_batched_check_is_the_model : forall (F : Type) (NF : Num F) (logm : bool) (fm : F) (xs ys : list F),
+  extrap_full_pre logm fm xs (map (lag0_weight xs) xs) ys (if logm then map nln ys else ys) = extrap_full logm fm xs ys.
+Proof. exact (@extrap_full_pre_eq). Qed.
+Print Assumptions C07_batched_check_is_the_model.
+
 (** non-vacuity: a concrete cubic at four distinct spacings *)
 Example C07_nonvacuous :
   extrap_entry [1; 2; 4; 8] (map (peval [5; -1; 3; 2]) [1; 2; 4; 8]) = Some 5.
